@@ -5,7 +5,7 @@ import MpsVerif.Drv.Util
 
 Protocol (one line each):
 ```
-case <id> bs=<n> wait=<n> end=<N|k>
+case <id> bs=<n> wait=<n> end=<N|k> strict=<0|1>
 e arrive <N|k> | e tick <d> | e take <N|k> | e emit <x,x,…> | e resume | e stop
 end pc=<idle|coll|flush|held|closing|done> out=<#batches> clock=<n> q=<#queued>
 ```
@@ -65,7 +65,8 @@ def parseEv (name : String) (arg : Option String) : Option Ev :=
 
 def mkCfg (kv : List (String × String)) : Cfg :=
   { bs := Drv.getN kv "bs" 1, wait := Drv.getN kv "wait" 0,
-    endm := (parseItem (Drv.getS kv "end" "N")).getD none }
+    endm := (parseItem (Drv.getS kv "end" "N")).getD none,
+    strict := Drv.getN kv "strict" 1 == 1 }
 
 def pcName : Pc → String
   | .idle => "idle" | .coll => "coll" | .flush => "flush" | .held => "held"
